@@ -36,11 +36,33 @@ var cgTypeIDs = []string{"string", "integer", "float", "bool", "list", "map", "r
 func genCGDoc(s Src, withMap bool) ([]CGObject, string) {
 	no := s.Choose("cg.nobj", 7)
 	var objs []CGObject
+	// Names are valid identifiers drawn from pools that contain capitalisation variants of the same word and
+	// names that are prefixes of each other: orderings that only agree on "easy" names must not pass. Two names
+	// of one map never produce the same Go identifier (the generator upper-cases the first letter).
+	objPool := []string{"Obj", "pod", "Pod", "POD", "podSpec", "podspec", "volume_spec", "Volume_Spec", "X", "x1", "metaData", "metadata", "MetaData", "a", "B"}
+	propPool := []string{"name", "size", "apiVersion", "apiversion", "ApiVersion", "APIVERSION", "host_path", "hostPath", "hostpath", "z", "userID", "userId", "userid", "USERID", "n", "N1"}
+	pick := func(kind string, pool []string, used map[string]bool) string {
+		for try := 0; try < 8; try++ {
+			n := pool[s.Choose(kind, len(pool))]
+			if s.Choose(kind+".suffix", 3) == 2 {
+				n += fmt.Sprint(s.Choose(kind+".n", 3))
+			}
+			if !used[titleFirst(n)] {
+				used[titleFirst(n)] = true
+				return n
+			}
+		}
+		n := fmt.Sprintf("%s_%d", pool[0], len(used))
+		used[titleFirst(n)] = true
+		return n
+	}
+	usedObj := map[string]bool{}
 	for i := 0; i < no; i++ {
-		o := CGObject{ID: fmt.Sprintf("%s%d", []string{"Obj", "pod", "volume_spec", "X", "metaData"}[s.Choose("cg.oname", 5)], i)}
+		o := CGObject{ID: pick("cg.oname", objPool, usedObj)}
 		np := s.Choose("cg.nprop", 7)
+		usedProp := map[string]bool{}
 		for j := 0; j < np; j++ {
-			p := CGProp{Name: fmt.Sprintf("%s%d", []string{"name", "size", "apiVersion", "host_path", "z"}[s.Choose("cg.pname", 5)], j), TypeID: cgTypeIDs[s.Choose("cg.type", len(cgTypeIDs))]}
+			p := CGProp{Name: pick("cg.pname", propPool, usedProp), TypeID: cgTypeIDs[s.Choose("cg.type", len(cgTypeIDs))]}
 			if p.TypeID == "map" && !withMap {
 				p.TypeID = "list"
 			}
